@@ -122,6 +122,31 @@ func exec(c Case) (v ev.Verdict) {
 			seen[l] = true
 		}
 		closure := m.Closure(id)
+		if res.OK() && !op.Dry {
+			// "any successful execution of one of its dependencies" is an input: a dependent of a
+			// target that executed in this build executes in this build too, after it.
+			start, end := map[string]int{}, map[string]int{}
+			for i, e := range res.Log {
+				if e.Phase == "start" {
+					start[e.Label] = i + 1
+				} else if e.Phase == "end" {
+					end[e.Label] = i + 1
+				}
+			}
+			for _, t := range closure {
+				for _, d := range m.DirectDeps(t) {
+					if end[m.Label(d)] == 0 {
+						continue
+					}
+					if start[m.Label(t)] == 0 {
+						return ev.Failf("dependent-not-rerun", "%s: %s executed in this build but its dependent %s did not", where, m.Label(d), m.Label(t))
+					}
+					if start[m.Label(t)] < end[m.Label(d)] {
+						return ev.Failf("dependent-before-dependency", "%s: %s started before its dependency %s finished", where, m.Label(t), m.Label(d))
+					}
+				}
+			}
+		}
 		anyDirty := false
 		for _, t := range closure {
 			if dirty[t] {
